@@ -406,6 +406,138 @@ pub fn run(ctx: &Ctx) -> Report {
         });
         rep.merge(r);
     }
+    // ---- a TLS connection whose byte stream ends (no close_notify): inside the SSLRequest, inside a
+    //      record of the TLS handshake, inside a record that carries the handshake response or a
+    //      command. A stream that ends inside a TLS record ended inside a packet (or before the
+    //      handshake completed): run_on must return an error, and no command carried by the cut
+    //      record or a later one may reach the shim. Cuts on a record boundary are not judged.
+    if !ctx.miri {
+        if let Ok(tm) = crate::tls::TlsMaterial::generate() {
+            let n = ctx.n(400, 20_000);
+            let r = par_cases(ctx, "C19", "tls-cut", n, |rng, i, rep| {
+                let ncmd = rng.range(1, 5) as usize;
+                let mut cmds = Vec::new();
+                let mut scripts = Vec::new();
+                for k in 0..ncmd {
+                    let mut t = format!("q{} ", k).into_bytes();
+                    let extra = if rng.chance(1, 6) { rng.range(1000, 15_000) as usize } else { rng.below(40) as usize };
+                    stream_fill(&mut t, ctx.seed ^ i, k as u64, extra, true);
+                    cmds.push(Cmd::query(&t));
+                    scripts.push(Script::Q(QProg::completed(k as u64, 0)));
+                }
+                let per_cmd = i % 4 != 3;
+                let mut c = super::c18::TlsCase { tls13: rng.bool(), with_cert: rng.chance(1, 4), server_mode: 0, user: b"cutuser".to_vec(), cmds, scripts, first_cut: 0, cycle: if rng.bool() { vec![] } else { vec![rng.range(1, 700) as usize] }, write_limit: usize::MAX, close_notify: false, raw_limit: None, hs_variant: 0, app_override: None, seqs: (1, 2), auth_reject: None, record_per_command: per_cmd };
+                let dry = match super::c18::run_tls(&tm, &c) {
+                    Ok(o) => o,
+                    Err(e) => {
+                        rep.inconclusive.push(format!("TLS harness error: {}", e));
+                        return;
+                    }
+                };
+                let total = dry.world.client_raw.len();
+                let from = dry.world.tls_from;
+                let dry_recs = crate::tls::tls_records(&dry.world.client_raw[from.min(total)..]).unwrap_or_default();
+                if total < from + 10 || dry.log.cbs.len() != ncmd + 1 || dry_recs.len() < 2 + if per_cmd { ncmd } else { 0 } {
+                    rep.inconclusive.push(format!("TLS dry run did not complete ({} raw bytes, {} records, {} callbacks, {})", total, dry_recs.len(), dry.log.cbs.len(), dry.outcome.describe()));
+                    return;
+                }
+                // records are counted, not measured: signature sizes make lengths vary from run to run
+                // (with one write for everything, the plaintext must fit one record for the count to be known)
+                let plain_len: usize = 4 + 32 + c.user.len() + 2 + c.cmds.iter().map(|m| 4 + m.payload.len()).sum::<usize>();
+                let layout_known = per_cmd || plain_len < 16_000;
+                let hs_records = dry_recs.len() - if per_cmd { ncmd } else { 0 } - 1; // those before the handshake response
+                let tail: usize = dry_recs[hs_records..].iter().map(|r| 5 + r.2).sum();
+                let l = match i % 3 {
+                    0 => rng.range(1, from as u64 - 1) as usize,
+                    1 => rng.range(from as u64 + 1, total as u64 - 1) as usize,
+                    // somewhere in the records that carry the handshake response and the commands
+                    _ => total - 1 - rng.below(tail as u64 - 1) as usize,
+                };
+                c.raw_limit = Some(l);
+                let o = match super::c18::run_tls(&tm, &c) {
+                    Ok(o) => o,
+                    Err(e) => {
+                        rep.inconclusive.push(format!("TLS harness error: {}", e));
+                        return;
+                    }
+                };
+                rep.evaluations += 1;
+                let raw = &o.world.client_raw;
+                if raw.len() < l {
+                    // this run's stream came out shorter than the cut point: nothing was cut
+                    rep.counters.inc("tls_cut_not_reached");
+                    return;
+                }
+                // where did the cut fall in THIS run's stream
+                let mut complete = 0usize;
+                let mut at = o.world.tls_from.min(raw.len());
+                let mut partial: Option<(u8, usize, usize)> = None; // (type, declared, present)
+                if raw.len() > o.world.tls_from {
+                    loop {
+                        if at == raw.len() {
+                            break;
+                        }
+                        if at + 5 > raw.len() {
+                            partial = Some((raw[at], 0, raw.len() - at));
+                            break;
+                        }
+                        let len = (raw[at + 3] as usize) << 8 | raw[at + 4] as usize;
+                        if at + 5 + len > raw.len() {
+                            partial = Some((raw[at], len, raw.len() - at));
+                            break;
+                        }
+                        complete += 1;
+                        at += 5 + len;
+                    }
+                }
+                let in_sslreq = l < from;
+                let place = if in_sslreq { "inside the SSLRequest packet".to_string() } else if partial.is_none() { "at a TLS record boundary".to_string() } else if !layout_known { "inside a record (several records for one client write)".to_string() } else if complete < hs_records { "inside a record of the TLS handshake".to_string() } else if complete == hs_records { "inside the record of the handshake response".to_string() } else { "inside the record of a command".to_string() };
+                rep.counters.class(format!("tls stream cut {} ({}) -> {}", place, if per_cmd { "a record per command" } else { "one write" }, o.outcome.class()));
+                rep.counters.inc("eof_cuts");
+                rep.counters.inc("tls_stream_cuts");
+                let d = || J::obj().set("transport", "TLS").set("fault", format!("client stream of about {} bytes ends after {}: {} ({} complete records before it, {} of them TLS-handshake records; cut record: {:?})", total, l, place, complete, hs_records, partial)).set("commands", ncmd).set("a_record_per_command", per_cmd).set("outcome", o.outcome.describe());
+                if i < 1 {
+                    rep.sample(d());
+                }
+                if let Outcome::Panic { file, line, msg } = &o.outcome {
+                    if is_harness_file(file) {
+                        rep.inconclusive.push(format!("harness panic at {}:{}", file, line));
+                        return;
+                    }
+                    rep.violations.push(viol("C19", format!("C19 {} under tls stream cut", panic_signature(file, *line, msg)), format!("a TLS stream cut {} made run_on panic: {}", place, o.outcome.describe()), d()));
+                    return;
+                }
+                if !in_sslreq && partial.is_none() {
+                    rep.counters.inc("tls_cuts_on_a_boundary_not_judged");
+                    return;
+                }
+                if !o.outcome.is_err() {
+                    rep.violations.push(viol("C19", format!("C19 tls-eof-masked {}", place), format!("the TLS client's stream ended {} (after {} bytes, no close_notify), run_on returned {}", place, l, o.outcome.describe()), d()));
+                    return;
+                }
+                // commands carried by the cut record or later ones never arrived
+                let served = o.log.cbs.iter().filter(|c| !matches!(c.kind, CbKind::Auth { .. })).count();
+                let auths = o.log.cbs.len() - served;
+                let delivered_cmds = if per_cmd { complete.saturating_sub(hs_records + 1) } else { 0 };
+                if layout_known {
+                    if served > delivered_cmds || (complete <= hs_records && auths > 0) {
+                        rep.violations.push(viol("C19", "C19 tls-callback-for-undelivered-bytes".into(), format!("{} command callbacks and {} after_authentication calls, but only {} command records (and {} handshake response) arrived complete", served, auths, delivered_cmds, if complete > hs_records { "the" } else { "no" }), d()));
+                        return;
+                    }
+                    rep.counters.inc("tls_cuts_callback_bound_checked");
+                }
+                rep.counters.inc("eof_err_expected_and_seen");
+                rep.counters.inc("tls_cuts_err_expected_and_seen");
+            });
+            rep.merge(r);
+            if ctx.strict() {
+                rep.require("tls_cuts_err_expected_and_seen", 50);
+                rep.require("tls_cuts_callback_bound_checked", 50);
+            }
+        } else {
+            rep.inconclusive.push("cannot generate TLS material".into());
+        }
+    }
     rep.merge(super::mega::run(ctx, "C19", 1500, 60000));
     if ctx.strict() {
         rep.require("eof_cuts", 1000);
